@@ -506,7 +506,37 @@ def rule_inbound(ctx: Ctx) -> None:
               god.node, "Decimal(text)", "optional decimal decoder changed", key_text="optional decimal")
 
 
+def rule_aggregates(ctx: Ctx) -> None:
+    """Per-order totals built from a sequence of trades / transactions must accumulate every element."""
+    specs = [
+        (f"{BIN}.common.OrderInfo.__init__", "trades", {"self._fees": "commission"}),
+        (f"{BTS}.exchange.OrderInfo.__init__", "transactions", {"fees": "fee", "self._filled_base_amount": "base_currency",
+                                                                "self._quote_amount_filled": "quote_currency"}),
+    ]
+    for q, seqname, totals in specs:
+        fn = ctx.func(q)
+        loops = [n for n in C.walk_shallow(fn.node) if isinstance(n, ast.For) and ast.unparse(n.iter).endswith(seqname)]
+        for target, what in totals.items():
+            acc = [s for s in A.stores(fn) if isinstance(s.node, ast.AugAssign) and isinstance(s.node.op, ast.Add)
+                   and (A.dotted(s.target) == target or (isinstance(s.target, ast.Subscript) and A.dotted(s.target.value) == target))
+                   and any(A.is_within(s.stmt, lp) for lp in loops) and what in ast.unparse(s.node.value)]
+            lossy = [s for s in A.stores(fn) if A.dotted(s.target) == target and isinstance(s.node, (ast.Assign, ast.AnnAssign))
+                     and any(isinstance(x, (ast.DictComp, ast.ListComp, ast.GeneratorExp)) and seqname in ast.unparse(x) for x in ast.walk(s.node.value))
+                     and not any(isinstance(x, ast.Call) and A.call_name(x) == "sum" for x in ast.walk(s.node.value))]
+            short = q.split(".", 3)[-1]
+            if acc and not lossy:
+                ctx.ok("C17.4", f"{short}: {target} accumulates the {what} of every element of {seqname}", fn, acc[0].stmt, "+= inside the loop",
+                       key_text=f"aggregate {q} {target}")
+            elif lossy:
+                ctx.bad("C17.4", f"{short}: {target} accumulates the {what} of every element of {seqname}", fn, lossy[0].stmt,
+                        f"{target} is built by a comprehension keyed by a non-unique key: a later element overwrites an earlier one, so an "
+                        f"order filled by several {seqname} reports only part of its {what}", key_text=f"aggregate {q} {target}")
+            else:
+                ctx.require(False, f"C17.4: cannot recognise how {target} is aggregated over {seqname} in {q}")
+
+
 def run(ctx: Ctx) -> None:
+    rule_aggregates(ctx)
     rule_outbound(ctx)
     rule_endpoints(ctx)
     rule_inbound(ctx)
